@@ -502,8 +502,9 @@ pub fn run(id: &str, data: &[u8]) -> Option<Outcome> {
             let msgs = (0..n).map(|_| c10::more_logs(message(u, st, false, true))).collect();
             let splits = (0..u.below(5)).map(|_| u.u16()).collect();
             let order = (0..u.below(6)).map(|_| u.u16()).collect();
-            let merges = (0..6).map(|_| (u.u16(), u.u16())).collect();
-            let c = c10::Case { storage, msgs, splits, order, merges };
+            let merges = (0..8).map(|_| (u.u16(), u.u16())).collect();
+            let repeat = if u.chance(50) { Some((u.u16(), u.u16())) } else { None };
+            let c = c10::Case { storage, msgs, splits, order, merges, repeat };
             let r = c10::check(&c);
             out("streams", json!(c), r)
         }
